@@ -81,6 +81,9 @@ def make_tables(rng, qgram):
             'key': (['k%d' % rng.randint(0, 5) for _ in range(n)], 'object'),
             side + 'k': ([rng.randint(0, 3) for _ in range(n)], 'int64'),
             'e': (['e%d' % i for i in range(n)], 'object'),
+            # twin labels: differ from side + 'str' only in case / surrounding blanks, yet other columns
+            (side + 'str').upper(): (['U%d' % i for i in range(n)], 'object'),
+            ' ' + side + 'str ': (['b%d' % i for i in range(n)], 'object'),
             # object cells that some constructors / helpers do not treat as opaque scalars: Decimal and
             # Fraction (not exactly representable as floats), tuples of length 0, 1 and 2, lists, bytes
             side + 'cell': ([rng.choice([decimal.Decimal('1.10'), decimal.Decimal('0.1'), fractions.Fraction(1, 3),
